@@ -395,6 +395,50 @@ def run_impl(fs, lines):
     return out, term
 
 
+WARM = {'N': ('N', ['mmsi']), 'T': ('T', [63]), 'D': ('D', [[0, 1], [0, 1]], [1, 1]), 'G': ('G', [0, 1], [0, 1], [0, 1], [0, 1])}
+
+
+def run_impl_reconfigured(fs, lines):
+    """The same chain, but its filter objects were constructed with OTHER parameters, used once, and then given the parameters
+    of `fs` through their public attributes (attrs / types / ref_lat_lon, distance_km / lat_min.. / ff): what a filter does
+    must follow its current parameters.  -> like run_impl"""
+    from pyais.filter import FilterChain
+    warm = [WARM.get(f[0], f) for f in fs]
+    try:
+        objs = [build_filter(w if w[0] != 'D' else ('D', [num(0.0), num(0.0)], num(1.0))) if w[0] != 'G'
+                else build_filter(('G', num(0.0), num(0.0), num(0.0), num(0.0))) for w in warm]
+        chain = FilterChain(objs)
+        for _ in chain.filter(make_stream(lines)):
+            pass
+    except Exception:      # noqa: BLE001 -- the warm-up run is not judged
+        pass
+    try:
+        for o, f in zip(objs, fs):
+            k = f[0]
+            if k == 'N':
+                o.attrs = tuple(f[1])
+            elif k == 'T':
+                o.types = tuple(f[1])
+            elif k == 'D':
+                o.ref_lat_lon = (unnum(f[1][0]), unnum(f[1][1]))
+                o.distance_km = unnum(f[2])
+            elif k == 'G':
+                o.lat_min, o.lon_min, o.lat_max, o.lon_max = [unnum(x) for x in f[1:5]]
+            elif k == 'A':
+                o.ff = eval(pred_source(f[1]))
+    except Exception as e:      # noqa: BLE001
+        return 'RAISE', type(e).__name__
+    out, term = [], 'end'
+    try:
+        for m in chain.filter(make_stream(lines)):
+            out.append(m)
+    except RecursionError:
+        raise
+    except Exception as e:      # noqa: BLE001
+        term = type(e).__name__
+    return out, term
+
+
 def decode_stream(lines):
     """What the chain's generator expression will see: the sentences of IterMessages, each decoded (or the class of the
     exception its decode() raises)."""
@@ -1042,6 +1086,21 @@ def check_case(ctx, groups, fs, perms, model=None, want_sample=False, quiet=Fals
                               f'{chain_text(fs)} yields input positions {base["out"]}, reordered as {list(perm)} it yields {view["out"]}',
                               dict(replay, perm=list(perm)))
                 break
+    # (d) oracle: filter objects that were built with other parameters and then re-configured through their public attributes
+    # behave like freshly built ones (state derived from the constructor arguments and never refreshed shows only here)
+    base = results.get(perms[0])
+    if judged and base and 'out' in base and not isinstance(lines[0] if lines else None, Synth) \
+            and (getattr(ctx, 'force_reconfigured', False) or ctx.rng.random() < 0.25):
+        pf = [fs[i] for i in perms[0]]
+        rep.count('reconfigured-chain')
+        impl2 = run_impl_reconfigured(pf, lines)
+        view2 = {'raise': impl2[1]} if impl2[0] == 'RAISE' else \
+            {'out': indices_of([content_key(m) for m in impl2[0]], in_keys), 'end': impl2[1]}
+        if view2 != base:
+            rep.violation({'entry': 'FilterChain.filter', 'component': 'reconfigured-filter', 'kind': 'stale-after-reconfiguration'},
+                          f'{chain_text(pf)}: filter objects first built with other parameters and then given these through their '
+                          f'public attributes yield {view2}, freshly built ones {base}',
+                          dict(replay, filters=[list(f) for f in pf], reconfigured=True))
     # distribution
     first = results.get(perms[0])
     if first and 'out' in first and first['out'] is not None:
@@ -1306,6 +1365,7 @@ def replay(ctx, data):
     c = C()
     c.rep, c.rng, c.quick = rep, ctx.rng, True
     c.budget = lambda q, t: q
+    c.force_reconfigured = bool(data.get('reconfigured'))
     if 'haversine' in data:
         v = [unnum(x) for x in data['haversine']]
         check_haversine(rep, (v[0], v[1]), (v[2], v[3]), 'replay')
